@@ -32,6 +32,7 @@ From FT Require Gen.UserActions_gen Proofs.UserActionsTie.
 From FT Require Model.Toggle Proofs.EditInit.
 From FT Require Proofs.CoreTieBundle.
 From FT Require Model.EditCtor Proofs.EditCtor.
+From FT Require Proofs.EditCtorDict.
 Import ListNotations.
 Open Scope Z_scope.
 
@@ -311,6 +312,25 @@ Theorem C04_sessions_from_any_construction : forall r0 posk ctrk clin extra ops,
   forall pre post, ops = pre ++ post -> WF (run (FT.Model.EditCtor.construct_any r0 ctrk clin extra) pre).
 Proof. exact EditCtor.construct_any_session_WF. Qed.
 
+(* ---- ... and for tracks constructed with a PREPARED feature registry (features=<FeatureDict>: load_tracks of the
+        internal save format, applications that build their own registry): Model/EditCtor.v construct_dict,
+        following Tracks._activate_features_from_dict after TrackAnnotator.__init__ - the lookups are filled by the
+        scan, every registered key an annotator can manage is activated, NOTHING is computed. If everything the
+        registry lists is valid on the graph (EditCtorDict.dict_ok: time, track and lineage ids registered; track
+        ids label the unbranched segments, lineage ids the components; every registered regionprops key stores
+        the value of the node's current mask, a registered IoU the true overlap; the caller's table is otherwise
+        arbitrary), the constructed state is well formed and so is every state of every session over the whole
+        interface from it.  Proofs/EditCtorDictExample.v: a reloaded solution with a division, non-contiguous
+        ids, positions, areas and IoUs (accepted; the first lineage id issued afterwards lies above the loaded
+        maximum), and one with a stale registered area (dict_ok fails and the constructed state is NOT fresh).
+        Tie: the constructor correspondence compares construct_dict with SolutionTracks(..., features=...)
+        on 15 % of the generated raw solutions (harness/ctor.py, driver line CD). ---- *)
+Theorem C04_sessions_from_prepared_registry : forall r0 ops,
+  EditCtorDict.dict_ok r0 ->
+  EditSessionsAll.pre_along_all (FT.Model.EditCtor.construct_dict r0) ops ->
+  forall pre post, ops = pre ++ post -> WF (run (FT.Model.EditCtor.construct_dict r0) pre).
+Proof. exact EditCtorDict.construct_dict_session_WF. Qed.
+
 Example C04_ex4_hypotheses :
   W_dict ex4 /\ W_forest ex4 /\ W_trk ex4 /\ W_book ex4 /\ trk_bounded ex4 /\ trk_act (ft ex4) = true.
 Proof. exact (conj ex4_W_dict (conj ex4_W_forest (conj ex4_W_trk (conj ex4_W_book (conj ex4_trk_bounded eq_refl))))). Qed.
@@ -361,3 +381,4 @@ Print Assumptions C04_user_actions_are_generated.
 Print Assumptions C04_sessions_from_construction.
 Print Assumptions C04_core_is_generated.
 Print Assumptions C04_sessions_from_any_construction.
+Print Assumptions C04_sessions_from_prepared_registry.
